@@ -67,7 +67,8 @@ def run_parse(out, tier, seed, want):
     out.add_tlc(r, "GEN towers")
     towers = list(r.cases())
     maxh = (10000 if tier == "quick" else 1000000) if want == "C02" else (1000 if tier == "quick" else 10000)
-    tlc_cases += [t for t in towers if t["seq"][1] <= maxh]
+    # (towers in a constant's value go to 10^5 in the quick tier too: that is where an unguarded recursion overflows an 8 MB stack)
+    tlc_cases += [t for t in towers if t["seq"][1] <= maxh or (want == "C02" and t["seq"][0].startswith("const ") and t["seq"][1] <= 100000)]
     if want == "C02":
         # the progress model: guard is safe below F/U levels and TLC must find the counterexample above
         r = vlib.tlc("ParseTotal", "ParseTotal_fuel.cfg", workers=2, timeout=300)
